@@ -489,3 +489,113 @@ func chainErrorUnchanged(c *core.Ctx, r *core.Rule) {
 		r.OK("decoders/chain-error-unchanged", "", fmt.Sprintf("%d NextDecoder results are returned unchanged or only compared with nil", n))
 	}
 }
+
+// lastSeenWithEveryFragment (R13.14): the ip4 fragment list records when it
+// last received a fragment for every fragment it counts: in insert the store
+// to LastSeen dominates the store to Current.  Refreshing the time only for
+// fragments that raise the highest offset lets DiscardOlderThan forget a
+// datagram that is still receiving (gap-filling) fragments.
+func lastSeenWithEveryFragment(c *core.Ctx, r *core.Rule) {
+	p := c.P
+	fn := p.Func("ip4defrag", "fragmentList.insert")
+	if fn == nil || len(fn.Blocks) == 0 {
+		r.Missing("ip4defrag.(*fragmentList).insert", "not found")
+		return
+	}
+	var last, cur []*ssa.Store
+	core.Instrs(fn, func(ins ssa.Instruction) {
+		if st, ok := ins.(*ssa.Store); ok {
+			if fa, ok := st.Addr.(*ssa.FieldAddr); ok {
+				switch core.FieldOfAddr(fa).Name() {
+				case "LastSeen":
+					last = append(last, st)
+				case "Current":
+					cur = append(cur, st)
+				}
+			}
+		}
+	})
+	if len(cur) == 0 {
+		r.Missing("ip4defrag.(*fragmentList).insert/Current", "no store to Current found")
+		return
+	}
+	for i, cs := range cur {
+		ok := false
+		for _, ls := range last {
+			if core.Dominates(ls, cs) {
+				ok = true
+			}
+		}
+		r.Check(ok, fmt.Sprintf("%s/last-seen-with-current#%d", core.FnKey(fn), i+1), p.InstrPos(cs), "LastSeen is stored on every path that counts a fragment", "a fragment is counted (Current is updated) on a path on which LastSeen is not refreshed: fragments that only fill gaps do not count as activity, so DiscardOlderThan forgets a datagram that received a fragment after the cut-off, and its last fragment then yields nothing")
+	}
+}
+
+// assemblyStopsAtFinal (R13.15): the IPv6 defragmenter concatenates payloads
+// up to the fragment whose More flag is clear; the loop that appends fragment
+// payloads leaves on a test of that flag.  Walking the whole list instead
+// appends a stray fragment that lies beyond the final one.
+func assemblyStopsAtFinal(c *core.Ctx, r *core.Rule) {
+	p := c.P
+	fn := p.Func("ip6defrag", "IPv6Defragmenter.DefragIPv6")
+	if fn == nil || len(fn.Blocks) == 0 {
+		r.Missing("ip6defrag.(*IPv6Defragmenter).DefragIPv6", "not found")
+		return
+	}
+	n := 0
+	for _, h := range fn.Blocks {
+		var work []*ssa.BasicBlock
+		for _, pr := range h.Preds {
+			if h.Dominates(pr) {
+				work = append(work, pr)
+			}
+		}
+		if len(work) == 0 {
+			continue
+		}
+		loop := map[*ssa.BasicBlock]bool{h: true}
+		for len(work) > 0 {
+			x := work[len(work)-1]
+			work = work[:len(work)-1]
+			if loop[x] {
+				continue
+			}
+			loop[x] = true
+			work = append(work, x.Preds...)
+		}
+		appendsPayload, exitsOnMore := false, false
+		for b := range loop {
+			for _, ins := range b.Instrs {
+				if nm, cc := core.BuiltinCall(ins); nm == "append" && len(cc.Args) == 2 {
+					if ld, ok := cc.Args[1].(*ssa.UnOp); ok && ld.Op == token.MUL {
+						if fa, ok := ld.X.(*ssa.FieldAddr); ok && core.FieldOfAddr(fa).Name() == "payload" {
+							appendsPayload = true
+						}
+					}
+				}
+			}
+			if iff, ok := b.Instrs[len(b.Instrs)-1].(*ssa.If); ok {
+				cond := iff.Cond
+				if u, ok := cond.(*ssa.UnOp); ok && u.Op == token.NOT {
+					cond = u.X
+				}
+				if ld, ok := cond.(*ssa.UnOp); ok && ld.Op == token.MUL {
+					if fa, ok := ld.X.(*ssa.FieldAddr); ok && core.FieldOfAddr(fa).Name() == "more" {
+						for _, s := range b.Succs {
+							if !loop[s] {
+								exitsOnMore = true
+							}
+						}
+					}
+				}
+			}
+		}
+		if !appendsPayload {
+			continue
+		}
+		n++
+		r.Check(exitsOnMore, fmt.Sprintf("%s/payload-loop-stops-at-final#%d", core.FnKey(fn), n), p.Pos(fn.Pos()), "the loop that concatenates payloads leaves at the fragment whose More flag is clear", "the loop that concatenates fragment payloads does not leave on the More flag: it runs to the end of the list, so a fragment that lies beyond the final one is appended to the datagram (and the next-header value is taken from it) although no fragment placed those bytes inside the datagram")
+	}
+	if n < 1 {
+		r.Missing("ip6defrag/payload loop", "no loop appending fragment payloads found")
+	}
+}
